@@ -42,6 +42,74 @@ def run(ctx, crate):
     # literal text is rendered as itself: a template literal cannot be taken for the wide element's in-band marker
     from .c11 import rule_marker_out_of_band
     rule_marker_out_of_band(ctx, crate)
+    rule_expand_at_marker(ctx, crate)
+
+
+def rule_expand_at_marker(ctx, crate, rule="R-WIDE-AT-MARKER"):
+    """"the rendering is the in-order concatenation of the literal text and the placeholder expansions": the wide element is
+    spliced into a line *at its marker* and nowhere else. `format_state` hands every line that follows a wide element to the
+    expansion routine (its `wide` is not reset per line), so the routine must leave a line without a marker as it is: each value
+    it returns is (a) `line.replace(MARKER, element)`, (b) the line itself, or (c) built under the found-edge of a search of the
+    line for the marker. A result that concatenates the element unconditionally appends a bar / the message to later template
+    lines (seed C10k: `split_once(MARKER).unwrap_or((&cur, ""))` + `format!("{head}{element}{tail}")`)."""
+    cfg = crate.config
+    from .c11 import SEARCHES
+    F = crate.body(r"style::ProgressStyle::format_state")
+    pushed = set()
+    if F:
+        for c in F.calls(r"std::string::String::push"):
+            if len(c.args) > 1 and c.args[1].get("k") == "const" and c.args[1].get("char"):
+                pushed.add(c.args[1].get("v"))
+    cands = [b for b in K.lib_bodies(crate) if b.file.endswith("style.rs") and any(
+        len(c.args) > 1 and c.args[1].get("k") == "const" and c.args[1].get("char") and c.args[1].get("v") in pushed for c in b.calls(*SEARCHES))
+        and b.name != "style::ProgressStyle::format_state"]
+    if not pushed or not cands:
+        ctx.check(True, rule, "no-in-band-marker", "style::ProgressStyle::format_state", "src/style.rs:0",
+                  "no character constant pushed by format_state is searched for in the line (positional design)", "", cfg)
+        return
+    n = 0
+    for E in cands:
+        lines = [i for i in range(1, E.arg_count + 1) if E.locals[i]["ty"] in ("std::string::String", "&str", "&std::string::String", "&mut std::string::String")]
+        if E.locals[0]["ty"] != "std::string::String" or not lines:
+            continue
+
+        def is_marker(a):
+            return isinstance(a, dict) and a.get("k") == "const" and a.get("char") and a.get("v") in pushed
+        found_edges = set()
+        for sb, t in E.switches():
+            sl = E.slice_switch(sb)
+            if not any(k.matches(*SEARCHES) and len(k.args) > 1 and is_marker(k.args[1]) for k in sl.calls):
+                continue
+            isdiscr = [1 for sb2, t2, pl, d in K.discr_switches(E) if sb2 == sb and K.head_of_type(pl.get("ty", "")) == "std::option::Option"]
+            zero = [tb for v, tb in t["targets"] if v == 0]
+            ol = operand_local(t["op"])
+            if isdiscr or (ol is not None and E.locals[ol]["ty"] == "bool"):
+                for x in E.succ(sb):
+                    if x not in zero:
+                        found_edges.add((sb, x))
+        for d in E.defs().get(0, ()):
+            if d["kind"] not in ("assign", "call") or d.get("lhs", {}).get("p"):
+                continue
+            n += 1
+            loc = "%s:%d" % (E.file, d.get("line", 0) or (d["call"].line if d["kind"] == "call" else 0))
+            ok = False
+            if d["kind"] == "call":
+                c = d["call"]
+                if K.meth(c.path) in ("replace", "replacen") and c.matches(*SEARCHES) and len(c.args) > 1 and is_marker(c.args[1]) and \
+                        E.slice_args(c, [0]).params() & set(lines):
+                    ok = True
+                sl = E.slice_args(c, list(range(len(c.args))))
+            else:
+                sl = E.slice_rv(d["bb"], d["stmt"]) if "stmt" in d else E.slice({"k": "copy", "place": {"l": 0, "p": []}}, at=d["bb"])
+            if not ok:
+                heavy = [k for k in sl.calls if not k.matches(r"std::ops::Deref::deref", r"std::clone::Clone::clone", r"std::convert::(From::from|Into::into)",
+                                                              r"std::string::String::(as_str|clone)", r"std::borrow::ToOwned::to_owned", r"std::string::ToString::to_string")]
+                ok = (not heavy and sl.params() <= set(lines)) or any(E.edge_dominates(e, d["bb"]) for e in found_edges)
+            ctx.check(ok, rule, "result#%d:%s" % (n - 1, K.meth(E.name)), E.name, loc,
+                      "the expanded line is the line with the element spliced in at the marker (or the line itself)",
+                      "%s can return a line to which the wide element was added although the line holds no marker: every template line after the one with the "
+                      "wide element gets a bar / the message appended (`top\\n[{wide_bar}]\\nbottom {len}` renders `bottom 2##>-`)" % K.meth(E.name), cfg)
+    ctx.floor(rule, n, 2, cfg, "values returned by the wide-element expansion")
 
 
 def rule_brace_not_dropped(ctx, crate, rule="R-BRACE-NOT-DROPPED"):
